@@ -174,3 +174,26 @@ also("C03", "R-C17-14 (shared with C17): classes do not nest in scanChunk.")
 also("C18", "R-C18-2 also requires the replacer's pair list to start empty and to receive nothing but the pairs.")
 also("C19", "R-C19-3 also requires that the stored key halves run through the reviewed encoding calls only: nothing is applied to the raw key bytes.")
 also("C20", "R-C20-2 also requires flag registrations that share a destination variable to agree on the default.")
+
+# deciding methods added after the first build round (appended to the technique of each check)
+def tech(pid, text):
+    technique, t, ref = CLAIMED[pid]
+    CLAIMED[pid] = (technique + " + " + text, t, ref)
+
+for _p in ("C01", "C02", "C03", "C05", "C07", "C09", "C12", "C13", "C18", "C19", "C20"):
+    tech(_p, "exhaustive-loop analysis (A2: early exits must fail or carry an answer)")
+for _p in ("C01", "C02", "C03", "C04", "C05", "C06", "C07", "C08", "C09", "C11", "C12", "C14", "C15", "C17", "C18", "C19"):
+    tech(_p, "global-write analysis (no state kept between calls)")
+tech("C05", "argument wiring of the entry points' options")
+tech("C08", "one-to-one parameter pass-through of the recursion + shared schema table")
+tech("C09", "bounded path-sensitive enumeration of RunCommand (run directory)")
+tech("C14", "bounded path-sensitive enumeration of RunCommand (run directory) + use-before-check / deferred-overwrite error analysis")
+tech("C12", "iterator-drives-loop check")
+tech("C15", "integer-linear normal form of bound facts + key provenance of map lookups + recursion census + counter-width check")
+tech("C16", "append-aliasing analysis of field slices + effects analysis of exported reference parameters")
+tech("C17", "integer-linear normal form of the scan guards + value-set analysis of loop-carried state + counter-width check")
+tech("C18", "bounded path-sensitive enumeration of SubstituteParameters + append-chain provenance of the replacer list")
+tech("C19", "call-chain allow-list between key bytes and stored halves")
+tech("C20", "bounded path-sensitive enumeration (key sources) + made-with-length dataflow + default agreement of shared flag variables")
+tech("C04", "append-aliasing analysis of signature lists + shared schema table")
+tech("C13", "StringArray flag kinds for path lists")
